@@ -13,7 +13,7 @@ RULE = ("curves: each segment type and paths of 2-4 mixed segments at scales 1e-
         "max(1e-12, 1e-9*L), ilength(0)=0, ilength(L)=1, monotone for s-values further apart than the tolerance, "
         "ValueError outside [0,L]; the only time-free observable of non-termination is the library's own iteration-cap "
         "exception. Non-trivial = curve is not a single Line and 0<s<L; distinct by (curve, s, config).")
-ASSUMPTIONS = ["'floating-point resolution of L' is read as 1e-9*L (length itself is reproducible only to quadrature accuracy)",
+ASSUMPTIONS = ["'floating-point resolution of L' is read as 1e-9*L (length itself is reproducible only to quadrature accuracy); 1e-4*L for curves whose speed (nearly) vanishes somewhere, where length(0,t) is itself discontinuous at that level",
                "the no-scipy configuration is run on few cases at scales <= 1e2 in the quick tier (about a second per call)"]
 CONFIGS = ['scipy', 'noscipy']
 BUDGET = {'quick': {'scipy': 800, 'noscipy': 32}, 'thorough': {'scipy': 20000, 'noscipy': 1200}}
@@ -68,6 +68,18 @@ def check(case, ctx):
         if not (math.isfinite(L) and L > 0):
             ctx.discard('length not positive/finite (C06)')
         tol = max(1e-12, 1e-9 * L)
+        # length() itself is only piecewise consistent where the speed (nearly) vanishes: numerical integration of |B'| across
+        # a (near-)cusp is accurate to ~1e-5 (C06 allows 5e-3 there, and records KF03), and length(0, t) then jumps by that
+        # much as t crosses the cusp, so no parameter can invert it more finely
+        from vp.props import c06
+        for sp in specs:
+            if sp[0] in 'QC':
+                cp = [gen.C(p) for p in sp[1:]]
+                vmin, tmin, vmax = c06.bez_speed_min(cp, 0.0, 1.0)
+                if vmax > 0 and vmin <= 1e-2 * vmax:
+                    tol = max(tol, 1e-4 * L)
+                    ctx.count('curve_with_near_singular_speed')
+                    break
         # -- s values --------------------------------------------------------------------------------
         svals = [(0.0, 'end'), (L, 'end')]
         for f in case['fr']:
